@@ -53,8 +53,21 @@ fn generated_list_strategy(tier: Tier) -> BoxedStrategy<ListCase> {
         prop::sample::select(vec!["*", "b-*", "{a,b}-*", "?*", "b>=0", "a-b-[0-9]*", "*-*"]),
         prop::collection::vec(generated_name(), 2..=max),
         prop::collection::vec((prop::collection::vec(any::<u16>(), 8), prop::collection::vec(any::<u16>(), 8)), 3),
+        // one list in ten: all versions share a prefix of a chosen number of components, so the
+        // candidates differ only far behind the start
+        prop::option::weighted(0.1, (crate::engine::gen::interesting_len(150), prop::sample::select(vec!["1.", "0.", "a", "1_", "rc1."]))),
     )
-        .prop_map(|(p, names, orders)| ListCase { pattern: p.to_string(), names, orders })
+        .prop_map(|(p, mut names, orders, prefix)| {
+            if let Some((n, unit)) = prefix {
+                let pre = unit.repeat(n);
+                for name in names.iter_mut() {
+                    if let Some(i) = name.rfind('-') {
+                        name.insert_str(i + 1, &pre);
+                    }
+                }
+            }
+            ListCase { pattern: p.to_string(), names, orders }
+        })
         .boxed()
 }
 
@@ -136,7 +149,7 @@ pub fn check(c: &ListCase, obs: &mut Obs) -> Result<(), String> {
     // known finding KF-1: where the ASCII-code letter encoding picks another winner, that one is
     // tolerated (and counted)
     let winner_ascii: Option<&str> = matching.iter().copied().reduce(|a, b| better_with(a, b, Letters::AsciiLower));
-    if names.iter().any(|n| dewey::longest_digit_run(n) > 18) {
+    if names.iter().any(|n| !dewey::numbers_in_domain(n)) {
         obs.excluded = true;
         return Ok(());
     }
